@@ -1,4 +1,4 @@
-import RtenVerif.Lemmas.BpeRefine
+import RtenVerif.Lemmas.BpeEncode
 
 /-!
 # C28 — BPE merging matches the reference merge algorithm
@@ -96,6 +96,32 @@ theorem refBestBy_none (rank : σ × σ → Option Nat) (pieces : List σ) :
   rw [Option.map_eq_none_iff, minByKey_eq_none]
   simp only [refCandidatesBy, List.filterMap_eq_nil_iff, Option.map_eq_none_iff]
 
+/-- ... and it is the **leftmost** among the adjacent pairs of minimal rank: in the list of ranked
+adjacent pairs (in position order) everything before the chosen one has a strictly larger rank. -/
+theorem refBestBy_leftmost (rank : σ × σ → Option Nat) (pieces : List σ) (p : σ × σ)
+    (h : refBestBy rank pieces = some p) :
+    ∃ pre post r, refCandidatesBy rank pieces = pre ++ (p, r) :: post ∧
+      (∀ c ∈ pre, r < c.2) ∧ ∀ c ∈ post, r ≤ c.2 := by
+  unfold refBestBy at h
+  cases hm : minByKey (fun c : (σ × σ) × Nat => c.2) (refCandidatesBy rank pieces) with
+  | none => simp [hm] at h
+  | some c =>
+    simp only [hm, Option.map_some, Option.some.injEq] at h
+    subst h
+    obtain ⟨pre, post, hl, hpre, hpost⟩ := minByKey_first _ hm
+    exact ⟨pre, post, c.2, hl, hpre, hpost⟩
+
+/-- **C28.T1d (loop invariant)** The `tokens.len() - 1` of the inner `while` cannot underflow at
+*any* iteration of a round: with the subtraction made partial (`replaceLoopChecked`, `none` =
+underflow) the loop still returns, and returns the functional replacement. -/
+theorem c28_T1_no_underflow_invariant (m : MergeMap α) (toks : List α) (c : (α × α) × (Nat × α))
+    (h : findMinPair m toks = some c) :
+    replaceLoopChecked c.1.1 c.1.2 c.2.2 toks.length 0 toks =
+      some (replacePairs c.1.1 c.1.2 c.2.2 toks) := by
+  have h2 := findMinPair_some_length h
+  have hne : toks ≠ [] := by intro he; rw [he] at h2; simp at h2
+  rw [replaceLoopChecked_eq _ _ _ _ _ _ hne, replaceLoop_eq]
+
 /-! ## T3 — data refinement -/
 
 /-- **C28.T3 (strong form, no duplicate-freeness needed)** With a vocabulary that is injective on
@@ -133,7 +159,60 @@ theorem c28_T3_refinement (dom : σ → Bool) (v : σ → Nat) (cat : σ → σ 
   unfold refBpe
   rw [← hr]; exact h
 
-/-- **C28.T4 (textbook algorithm, id level)** For *every* merge map and *every* token vector —
+/-- The pieces of the reference result are all keys of the vocabulary, so mapping them through the
+total `v` (= `get(..).unwrap_or(0)`) in T3 never uses the default. -/
+theorem c28_T3_results_in_vocab (dom : σ → Bool) (v : σ → Nat) (cat : σ → σ → σ)
+    (merges : List (σ × σ)) (M : MergeMap Nat)
+    (hM : buildMergeMap dom v cat merges = .ok M)
+    (pieces : List σ) (hp : ∀ x ∈ pieces, dom x = true) :
+    ∀ x ∈ refBpeLast cat merges pieces, dom x = true := by
+  unfold refBpeLast refBpeBy
+  exact refBpeFuelBy_dom (fun s => dom s = true) cat (refRankLast merges)
+    (fun a b r hr => (build_dom dom v cat merges 0 [] M hM (a, b) (refRankLast_mem hr)).2.2)
+    _ pieces hp
+
+/-- **`build_vocab` yields an injective vocabulary** (discharges T3's `hinj` for the vocabulary the
+code generates itself), for every merge list. -/
+theorem c28_buildVocab_injective (ms : List (String × String)) :
+    ∀ x y, vDom (buildVocabFull ms none) x = true → vDom (buildVocabFull ms none) y = true →
+      vId (buildVocabFull ms none) x = vId (buildVocabFull ms none) y → x = y :=
+  (buildVocabFull_inj ms).inj
+
+/-- **C28 for the function the driver runs.** With the vocabulary `Bpe::new` generates from the
+merge list (no supplied vocabulary, no suffix, `ignore_merges` off), for *every* merge list for
+which `build_merge_map` succeeds and every byte string, `encode_piece` returns the ids of the
+reference BPE result on the byte tokens — no side condition left. -/
+theorem c28_encode_auto_vocab_is_reference (ms : List (String × String)) (M : MergeMap Nat)
+    (hM : buildMergeMap (vDom (buildVocabFull ms none)) (vId (buildVocabFull ms none)) (· ++ ·) ms = .ok M)
+    (bs : List Nat) (hb : ∀ b ∈ bs, b < 256) :
+    encodePieceBytes (buildVocabFull ms none) M none false bs =
+      some ((refBpeLast (· ++ ·) ms (bs.map byteStr)).map (vId (buildVocabFull ms none))) := by
+  have hdom : ∀ b ∈ bs, vDom (buildVocabFull ms none) (byteStr b) = true :=
+    fun b hbm => byte_in_buildVocabFull ms (hb b hbm)
+  have hT3 := c28_T3_refinement_lastwins (vDom (buildVocabFull ms none)) (vId (buildVocabFull ms none))
+    (· ++ ·) (c28_buildVocab_injective ms) ms M hM (bs.map byteStr)
+    (by intro x hx; obtain ⟨b, hbm, rfl⟩ := List.mem_map.mp hx; exact hdom b hbm)
+  unfold encodePieceBytes
+  simp only [Bool.false_eq_true, if_false, mapM_vocabGet bs hdom]
+  rw [← hT3, List.map_map]
+  rfl
+
+/-- Non-vacuity: `b a` then `ba r` on the bytes of "barbar": `build_merge_map` succeeds and the
+result is `[bar, bar]` = ids 257, 257. -/
+def wAuto : Vocab := buildVocabFull [("b", "a"), ("ba", "r")] none
+
+set_option maxRecDepth 100000 in
+example :
+    (match buildMergeMap (vDom wAuto) (vId wAuto) (· ++ ·) [("b", "a"), ("ba", "r")] with
+     | .ok M => encodePieceBytes wAuto M none false [98, 97, 114, 98, 97, 114] == some [257, 257]
+     | .error _ => false) = true := by
+  decide +kernel
+
+/-- **C28.T4 (textbook algorithm, id level)** (The reference `refBpeBy` is written with the same
+list primitives `windows2`/`minByKey`/`replacePairs` as the functional model, whose meaning is
+pinned by `refBestBy_spec`, `refBestBy_leftmost`, `refBestBy_none` and `replacePairs_cons_cons`;
+the reference that is independent of this development is the harness's Rust `ref_bpe`.)
+For *every* merge map and *every* token vector —
 no injectivity, validity or ordering assumption — `bpe_merge` computes exactly the textbook
 procedure: repeatedly take the lowest-ranked adjacent pair (leftmost among equal ranks), merge
 **all** its non-overlapping occurrences left to right, until no adjacent pair has a rank. -/
